@@ -22,6 +22,15 @@ struct Style {
     y: u8,
 }
 
+/// One-field target for the merged-list sentences (keeps the number of captured sub-timelines small).
+#[derive(Animate, Clone, Debug, Default, PartialEq)]
+struct Dot {
+    r: u8,
+}
+fn same_dot(a: &DotTimeline, b: &DotTimeline) -> bool {
+    a.boundary_times == b.boundary_times && a.timescale.verif_same(&b.timescale) && a.t_r.verif_same_capture(&b.t_r)
+}
+
 #[derive(Clone, Debug, Default, Eq, PartialEq, State)]
 enum Ui {
     #[default]
@@ -112,12 +121,14 @@ eq_harness!(timeline_defaults_when_omitted, {
 });
 
 eq_harness!(timeline_merged_list, {
-    let m = timeline!(Style [1s to { x: 3 }, 2s after 1s Easing::In from { y: 1 } to { y: 4 }]);
+    let m = timeline!(Dot [1s to { r: 3 }, 2s after 1s Easing::In to { r: 4 }]);
     let b = MT::of([
-        Style::timeline().duration_seconds(1.0).keyframe(Style::keyframe(1.0).x(3)).build(),
-        Style::timeline().duration_seconds(2.0).delay_seconds(1.0).default_easing(Easing::In).keyframe(Style::keyframe(0.0).y(1)).keyframe(Style::keyframe(1.0).y(4)).build(),
+        Dot::timeline().duration_seconds(1.0).keyframe(Dot::keyframe(1.0).r(3)).build(),
+        Dot::timeline().duration_seconds(2.0).delay_seconds(1.0).default_easing(Easing::In).keyframe(Dot::keyframe(1.0).r(4)).build(),
     ]);
-    assert!(same_merged(&m, &b));
+    let (tm, tb) = (m.timelines_ref(), b.timelines_ref());
+    assert!(tm.len() == 2 && tb.len() == 2);
+    assert!(same_dot(&tm[0], &tb[0]) && same_dot(&tm[1], &tb[1]));
 });
 
 // ---- animator! ------------------------------------------------------------------------------------
@@ -174,19 +185,22 @@ eq_harness!(animator_default_keyframe_and_multi_state_arm, {
 });
 
 eq_harness!(animator_merged_arm, {
-    let m = animator!(Style {
+    let m = animator!(Dot {
         default(Ui::Press),
-        Ui::Press => [1s to { x: 3 }, 2s to { y: 4 }]
+        Ui::Press => [1s to { r: 3 }, 2s to { r: 4 }]
     });
     let b = StateAnimatorBuilder::new()
         .from_state(Ui::Press)
-        .from_values(Style::default())
+        .from_values(Dot::default())
         .on(Ui::Press, MT::of([
-            Style::timeline().duration_seconds(1.0).keyframe(Style::keyframe(1.0).x(3)).build(),
-            Style::timeline().duration_seconds(2.0).keyframe(Style::keyframe(1.0).y(4)).build(),
+            Dot::timeline().duration_seconds(1.0).keyframe(Dot::keyframe(1.0).r(3)).build(),
+            Dot::timeline().duration_seconds(2.0).keyframe(Dot::keyframe(1.0).r(4)).build(),
         ]))
         .build();
-    assert!(same_animator(&m, &b));
+    assert!(m.current_state() == b.current_state() && m.current_values() == b.current_values());
+    let (x, y) = (m.verif_timeline_of(&Ui::Press).unwrap().timelines_ref(), b.verif_timeline_of(&Ui::Press).unwrap().timelines_ref());
+    assert!(x.len() == 2 && y.len() == 2 && same_dot(&x[0], &y[0]) && same_dot(&x[1], &y[1]));
+    assert!(m.verif_timeline_of(&Ui::Idle).is_none() && m.verif_timeline_of(&Ui::Hover).is_none());
 });
 
 eq_harness!(animator_expression_default_and_no_default, {
